@@ -22,6 +22,7 @@ PASS_THROUGH = (
     "core::iter::traits::iterator::Iterator>::next", "::values", "::iter", "<core::cell::Cell>::get",
     "core::iter::traits::iterator::Iterator::map", "core::iter::traits::iterator::Iterator>::map",
     "core::iter::traits::iterator::Iterator::rev", "core::iter::traits::iterator::Iterator::cloned",
+    "core::convert::TryFrom>::try_from", "core::convert::TryInto>::try_into",
 )
 
 
